@@ -821,7 +821,7 @@ impl Harness for H {
         "every sequence (up to the tree depth) of attach_notification / attach_deadline / attach_interval (incl. on an attached listener and on a full wait set), \
          guard drop, notify per service, listener drain, re-creation of unattached listeners and zero-timeout wait_and_process_once_with_timeout (draining, non-draining, notifying inside the callback) \
          on a real WaitSet with 1..4 listeners over 1..2 event services (local = epoll + socket pair, ipc = epoll + unix datagram socket, custom variant = select reactor); \
-         after every step a non-consuming processing call is compared with the model; a distinct state = (kind per attachment slot, pending event ids and counts per listener)"
+         the larger configurations are distributed over one configuration per first operation (Cfg::start, applied with all checks in new_sys), so their history depth is tree depth + 1 (quick: 6 local / 4 ipc, thorough: up to 8); after every step a non-consuming processing call is compared with the model; a distinct state = (kind per attachment slot, pending event ids and counts per listener)"
             .into()
     }
 
